@@ -186,6 +186,7 @@ struct Shared {
     keep: Mutex<Vec<Arc<CommandAcknowledgement>>>,
     progress: AtomicU64,
     shutdown_called: AtomicBool,
+    shutdown_started: AtomicBool,
     stop_aux: AtomicBool,
 }
 
@@ -321,6 +322,7 @@ fn worker_thread(shared: Arc<Shared>, thread: usize, ops: Vec<COp>, barrier: Arc
                     Outcome::HoldRef { key: *k, value }
                 }
                 COp::Shutdown => {
+                    shared.shutdown_started.store(true, Ordering::SeqCst);
                     cache.shutdown();
                     shared.shutdown_called.store(true, Ordering::SeqCst);
                     Outcome::Shutdown
@@ -384,7 +386,7 @@ pub fn run_conc_case(case: &ConcCase, stall_window: Duration) -> ConcRun {
         inst.set_handler(Some(make_handler(&case.injection, delays.clone(), Arc::new(AtomicU64::new(0)))));
     }
     if case.consumer != ConsumerMode::Free { inst.consumer_gate.close(); }
-    let shared = Arc::new(Shared { cache, inst: inst.clone(), clock: clock.clone(), cfg: case.cfg.clone(), recs: Mutex::new(Vec::new()), keep: Mutex::new(Vec::new()), progress: AtomicU64::new(0), shutdown_called: AtomicBool::new(false), stop_aux: AtomicBool::new(false) });
+    let shared = Arc::new(Shared { cache, inst: inst.clone(), clock: clock.clone(), cfg: case.cfg.clone(), recs: Mutex::new(Vec::new()), keep: Mutex::new(Vec::new()), progress: AtomicU64::new(0), shutdown_called: AtomicBool::new(false), shutdown_started: AtomicBool::new(false), stop_aux: AtomicBool::new(false) });
     let barrier = Arc::new(Barrier::new(case.threads.len() + 1));
     let tids = Arc::new(Mutex::new(Vec::new()));
     let (done_sender, done_receiver) = std::sync::mpsc::channel::<usize>();
@@ -408,6 +410,8 @@ pub fn run_conc_case(case: &ConcCase, stall_window: Duration) -> ConcRun {
             let (mut samples, mut min, mut max) = (0u64, i64::MAX, i64::MIN);
             while !shared.stop_aux.load(Ordering::Acquire) {
                 let used = shared.cache.total_weight_used();
+                // C01 speaks about the running cache: samples taken once a shutdown has begun are not judged
+                if shared.shutdown_started.load(Ordering::SeqCst) { std::thread::yield_now(); continue; }
                 samples += 1;
                 min = min.min(used);
                 max = max.max(used);
@@ -476,6 +480,7 @@ pub fn run_conc_case(case: &ConcCase, stall_window: Duration) -> ConcRun {
         inst.set_handler(None);
         history.recs = shared.recs.lock().unwrap().clone();
         history.shutdown_called = shared.shutdown_called.load(Ordering::SeqCst);
+        history.background_panics = inst.panics().into_iter().filter(|message| message.starts_with("background")).collect();
         return ConcRun { history, snapshot: None };
     }
     if let Some(handle) = monitor_handle { let _ = handle.join(); }
